@@ -52,6 +52,9 @@ func writeTarToDir(r io.Reader, destDir string) error {
 		if err != nil {
 			return err
 		}
+		if !filepath.IsLocal(filepath.FromSlash(header.Name)) {
+			return errcode.InvalidArgf("tar entry %q is not inside the directory", header.Name)
+		}
 		dest := filepath.Join(destDir, filepath.FromSlash(header.Name))
 
 		switch typ := header.Typeflag; typ {
